@@ -122,13 +122,16 @@ C02Set == C02Auto \cup C02Qs \cup C02Ecm
 \* large sieve inputs cannot finish inside any budget: they are bounded by an abort predicate that turns true at
 \* its k-th poll (the call must then return the composite part or the failure value); with and without a pool -
 \* a pool starts workers at distant task indices, where index arithmetic is largest.  k shrinks with the size
-\* so that a call stays far below the hang deadline of the driver even in the checked profile (measured:
-\* 260 bits, 40 polls: 25 s; 300 bits, 8 polls: 20 s).
+\* so that a call stays far below the hang deadline of the driver even in the checked profile on a loaded machine
+\* (measured unloaded: 260 bits, 12 polls: 8 s; 300 bits, 4 polls: 10 s; deadline 600 s).
 AbortPref(t, k) == [threads |-> t, fb |-> 0, lf |-> 0, dbl |-> 0, isz |-> 0, abort |-> k]
-BigSieveSet == {Rec("pq", b, a, AbortPref(t, 40)) : b \in {160, 200, 260}, a \in {"mpqs", "siqs"}, t \in {0, 2, 4}}
-               \cup {Rec("pq", 300, a, AbortPref(t, 8)) : a \in {"mpqs", "siqs"}, t \in {0, 2, 4}}
-               \cup {Rec("pq", b, "qs", AbortPref(t, 40)) : b \in {160, 200, 260}, t \in {0, 2}}
-               \cup {Rec("pq", b, "auto", AbortPref(t, 40)) : b \in {200, 260}, t \in {0, 4}}
+BigSieveSet == {Rec("pq", b, a, AbortPref(t, 40)) : b \in {160, 200}, a \in {"mpqs", "siqs"}, t \in {0, 2, 4}}
+               \cup {Rec("pq", 260, a, AbortPref(t, 12)) : a \in {"mpqs", "siqs"}, t \in {0, 2, 4}}
+               \cup {Rec("pq", 300, a, AbortPref(t, 4)) : a \in {"mpqs", "siqs"}, t \in {0, 2, 4}}
+               \cup {Rec("pq", b, "qs", AbortPref(t, 40)) : b \in {160, 200}, t \in {0, 2}}
+               \cup {Rec("pq", 260, "qs", AbortPref(t, 12)) : t \in {0, 2}}
+               \cup {Rec("pq", 200, "auto", AbortPref(t, 40)) : t \in {0, 4}}
+               \cup {Rec("pq", 260, "auto", AbortPref(t, 12)) : t \in {0, 4}}
                \* thorough: further up (measured in the checked profile: 340 bits, 3 polls: 24 s / 12 s; MPQS 380 bits: 30 s)
                \cup (IF Thorough THEN {Rec("pq", 340, a, AbortPref(t, 3)) : a \in {"mpqs", "siqs"}, t \in {0, 4}}
                                       \cup {Rec("pq", 380, "mpqs", AbortPref(0, 3))}
